@@ -164,12 +164,14 @@ Example C01_ex_prim_ok :
   prim_ok objid_type_table (PObjId (EName "device") 4194303) /\
   prim_ok E_basetypes_SecurityLevel (PEnum (ENum 77)) /\
   prim_ok [] (PChars 4 [216; 61; 222; 0]) /\
-  prim_ok [] (PReal 4591870180256686080) (* the binary32 nearest to 0.1, widened *).
+  prim_ok [] (PReal 4591870180174331904) (* the binary32 nearest to 0.1, widened *).
 Proof.
-  repeat split; try (vm_compute; congruence); try (cbn; lia).
-  exists 1036831949. split; vm_compute; reflexivity.
+  split; [split; [vm_compute; congruence | cbn; lia]|].
+  split; [split; [lia | vm_compute; reflexivity]|].
+  split; [vm_compute; reflexivity|].
+  split; [reflexivity|]. exists 1036831949. split; vm_compute; reflexivity.
 Qed.
 Example C01_ex_wire_ctx :
-  dec_octets_ctx objid_type_table 12 [46; 2; 0; 0; 5; 99] (* context 2, device:5, one octet follows *)
+  dec_octets_ctx objid_type_table 12 [44; 2; 0; 0; 5; 99] (* context 2, device:5, one octet follows *)
   = Ok (PObjId (EName "device") 5, [99]).
 Proof. vm_compute. reflexivity. Qed.
